@@ -43,10 +43,16 @@ type Pol = HashMap<String, i8>;
 fn flip(p: &Pol) -> Pol { p.iter().map(|(k, v)| (k.clone(), -*v)).collect() }
 fn kill(p: &Pol) -> Pol { p.iter().map(|(k, _)| (k.clone(), 0)).collect() }
 
+thread_local! {
+    /// when set, fixed-point names may occur at any polarity (bodies need not be monotone)
+    pub static ANY_POLARITY: std::cell::Cell<bool> = std::cell::Cell::new(false);
+}
+
 impl<'a> Gen<'a> {
     fn name(&mut self) -> String { self.rng.pick(&self.names).clone() }
 
     fn var(&mut self, pol: &Pol) -> GF {
+        if ANY_POLARITY.with(|c| c.get()) { return GF::Var(self.name()); }
         // a fixed-point name may only be used where its polarity is positive
         for _ in 0..20 {
             let n = self.name();
@@ -370,6 +376,116 @@ pub fn eval_line(tag: &str, gf: &GF, text: &str, st: &mut Stats) -> String {
     line
 }
 
+/// An independent truth-table evaluation of a generated formula over at most 6 names: bit `m` of the result is
+/// the value under the assignment whose bit `j` is the value of `names[j]`.  Fixed points are computed as the
+/// README describes them — apply the transformer repeatedly, from false (lfp) or true (gfp), until the value
+/// is stable; `None` when that iteration runs into a cycle (no stable value), or there are too many names.
+pub fn ref_tt(gf: &GF, names: &[String]) -> Option<u64> {
+    let n = names.len();
+    if n > 6 { return None; }
+    let rows = 1usize << n;
+    let full: u64 = if rows == 64 { u64::MAX } else { (1u64 << rows) - 1 };
+    fn idx(names: &[String], x: &str) -> Option<usize> { names.iter().position(|y| y == x) }
+    fn go(f: &GF, names: &[String], rows: usize, full: u64, env: &HashMap<String, u64>) -> Option<u64> {
+        Some(match f {
+            GF::True => full,
+            GF::False => 0,
+            GF::Var(x) => match env.get(x) {
+                Some(t) => *t,
+                None => { let j = idx(names, x)?; let mut t = 0u64; for m in 0..rows { if (m >> j) & 1 == 1 { t |= 1 << m; } } t }
+            },
+            GF::Not(g) => !go(g, names, rows, full, env)? & full,
+            GF::Bin(op, l, r) => {
+                let (a, b) = (go(l, names, rows, full, env)?, go(r, names, rows, full, env)?);
+                (match op { 0 => a & b, 1 => a | b, 2 => a ^ b, 3 => !(a | b), 4 => !(a & b), 5 => !a | b, 6 => a | !b, _ => !(a ^ b) }) & full
+            }
+            GF::Ite(c, t, e) => {
+                let (c, t, e) = (go(c, names, rows, full, env)?, go(t, names, rows, full, env)?, go(e, names, rows, full, env)?);
+                ((c & t) | (!c & e)) & full
+            }
+            GF::Quant(ex, vs, body) => {
+                // a quantified name hides a fixed-point name of the same spelling
+                let mut env2 = env.clone();
+                for v in vs { env2.remove(v); }
+                let mut t = go(body, names, rows, full, &env2)?;
+                for v in vs {
+                    let j = idx(names, v)?;
+                    let mut r = 0u64;
+                    for m in 0..rows {
+                        let (lo, hi) = ((t >> (m & !(1 << j))) & 1, (t >> (m | (1 << j))) & 1);
+                        if (if *ex { lo | hi } else { lo & hi }) == 1 { r |= 1 << m; }
+                    }
+                    t = r;
+                }
+                t
+            }
+            GF::CntC(op, fs, k) => {
+                let ts: Option<Vec<u64>> = fs.iter().map(|g| go(g, names, rows, full, env)).collect();
+                let ts = ts?;
+                let mut r = 0u64;
+                for m in 0..rows {
+                    let c = ts.iter().filter(|t| (*t >> m) & 1 == 1).count() as u64;
+                    if match op { 0 => c <= *k, 1 => c < *k, 2 => c >= *k, 3 => c > *k, _ => c == *k } { r |= 1 << m; }
+                }
+                r
+            }
+            GF::CntV(op, l, rr) => {
+                let tl: Option<Vec<u64>> = l.iter().map(|g| go(g, names, rows, full, env)).collect();
+                let tr: Option<Vec<u64>> = rr.iter().map(|g| go(g, names, rows, full, env)).collect();
+                let (tl, tr) = (tl?, tr?);
+                let mut r = 0u64;
+                for m in 0..rows {
+                    let a = tl.iter().filter(|t| (*t >> m) & 1 == 1).count();
+                    let b = tr.iter().filter(|t| (*t >> m) & 1 == 1).count();
+                    if match op { 0 => a <= b, 1 => a < b, 2 => a >= b, 3 => a > b, _ => a == b } { r |= 1 << m; }
+                }
+                r
+            }
+            GF::Fix(x, gfp, body) => {
+                let mut cur: u64 = if *gfp { full } else { 0 };
+                let mut seen: Vec<u64> = vec![cur];
+                loop {
+                    let mut env2 = env.clone();
+                    env2.insert(x.clone(), cur);
+                    let next = go(body, names, rows, full, &env2)?;
+                    if next == cur { break cur; }
+                    if seen.contains(&next) || seen.len() > 300 { return None; }
+                    seen.push(next);
+                    cur = next;
+                }
+            }
+        })
+    }
+    go(gf, names, rows, full, &HashMap::new())
+}
+
+/// fixed points whose bodies need NOT be monotone but whose iteration is stable (decided by `ref_tt`, so a
+/// formula that would make the implementation loop forever is never evaluated)
+pub fn convergent_any_polarity(tag: &str, out: &mut dyn Write, tier: &str, rng: &mut Rng, st: &mut Stats) {
+    let n = if tier == "thorough" { 20000 } else { 1500 };
+    let mut emitted = 0;
+    let mut tries = 0;
+    while emitted < n && tries < 20 * n {
+        tries += 1;
+        let k = 2 + rng.below(3) as usize;
+        let mut names: Vec<String> = Vec::new();
+        while names.len() < k { let nm = rng.pick(&NAME_POOL[..6]).to_string(); if !names.contains(&nm) { names.push(nm); } }
+        let x = names[0].clone();
+        ANY_POLARITY.with(|c| c.set(true));
+        let body = { let mut g = Gen { rng, names: names.clone(), allow_fix: tries % 3 == 0, big_consts: false, max_list: 3 }; let d = 1 + g.rng.below(3) as u32; g.gen(d, &Pol::new()) };
+        ANY_POLARITY.with(|c| c.set(false));
+        let fix = GF::Fix(x, rng.chance(1, 2), Box::new(body));
+        let gf = match tries % 4 { 0 => GF::Bin(rng.below(8) as u8, Box::new(fix), Box::new(GF::Var(names[1].clone()))), _ => fix };
+        if ref_tt(&gf, &names).is_none() { st.hit("anypol.skipped-not-convergent"); continue; }
+        count_kinds(&gf, st);
+        let text = Printer { rng, noise: false }.print(&gf);
+        let line = eval_line(tag, &gf, &text, st);
+        writeln!(out, "{}", line).unwrap();
+        st.hit("anypol.convergent");
+        emitted += 1;
+    }
+}
+
 fn count_kinds(f: &GF, st: &mut Stats) {
     match f {
         GF::False | GF::True => st.hit("node.const"),
@@ -487,6 +603,7 @@ pub fn c04_lang(out: &mut dyn Write, tier: &str, rng: &mut Rng, st: &mut Stats) 
 
 pub fn c01(out: &mut dyn Write, tier: &str, rng: &mut Rng, st: &mut Stats) {
     corpus_eval("C01", "C01", out, st);
+    convergent_any_polarity("C01", out, tier, rng, st);
     let n = if tier == "thorough" { 40000 } else { 3000 };
     for i in 0..n {
         let names = gen_names(rng);
@@ -570,6 +687,25 @@ pub fn c06(out: &mut dyn Write, tier: &str, rng: &mut Rng, st: &mut Stats) {
             writeln!(out, "C06|lib|fpand|{}|{}|{}", show(&a), show(&g), show(&r)).unwrap();
         }
         st.hit("lib.fp");
+    }
+    // transformers that are not monotone: a chain of distinct diagrams d0 -> d1 -> ... -> dk -> dk (constants
+    // may occur in the middle); `fp` must return dk, the first element the transformer maps to itself
+    let m2 = if tier == "thorough" { 20000 } else { 1500 };
+    for _ in 0..m2 {
+        let vars = crate::bddprops::rand_vars(rng, 3, 6);
+        let k = 1 + rng.below(5) as usize;
+        let mut chain: Vec<B> = Vec::new();
+        while chain.len() < k + 1 {
+            let d = match rng.below(6) { 0 => from_tt(0, &[]), 1 => from_tt(1, &[]), _ => from_tt(rng.below(256), &vars) };
+            let d = crate::env::intern(&env, &d);
+            if !chain.iter().any(|c| **c == *d) { chain.push(d); }
+        }
+        let ch = chain.clone();
+        let r = env.fp(Rc::clone(&chain[0]), move |x| {
+            match ch.iter().position(|c| **c == *x) { Some(i) => Rc::clone(&ch[(i + 1).min(ch.len() - 1)]), None => x }
+        });
+        writeln!(out, "C06|lib|fpchain|{}|{}", show_list(&chain), show(&r)).unwrap();
+        st.hit("lib.fpchain");
     }
 }
 
